@@ -10,6 +10,8 @@ use pearl_verif_harness::*;
 use serde_json::json;
 use std::io::BufRead;
 
+static OTHER: std::sync::atomic::AtomicU64 = std::sync::atomic::AtomicU64::new(0);
+
 fn arg(name: &str) -> Option<String> {
     let a: Vec<String> = std::env::args().collect();
     a.iter().position(|x| x == name).and_then(|i| a.get(i + 1).cloned())
@@ -20,6 +22,7 @@ async fn run_behaviour<const N: usize>(cfg: HCfg, beh: BehaviourJ, dir: std::pat
     std::fs::create_dir_all(&dir).map_err(|e| e.to_string())?;
     let mut d = Driver::<N>::new(cfg, dir.clone(), nkeys);
     d.rec = rec;
+    let only: Option<Vec<String>> = arg("--only").map(|s| s.split(',').map(|x| x.to_string()).collect());
     d.snapshots_on = std::env::args().any(|a| a == "--snapshots");
     if let Some(r) = &d.rec {
         // one execution = one `reset` event: a = dirty-byte limit, ok = strict (quiesced) mode
@@ -44,6 +47,15 @@ async fn run_behaviour<const N: usize>(cfg: HCfg, beh: BehaviourJ, dir: std::pat
         let obs = if i + 1 == steps.len() { st.obs.as_ref().or(beh.final_obs.as_ref()) } else { st.obs.as_ref() };
         if let Some(obs) = obs {
             d.compare(i, &st.act.a, obs, &mut out).await;
+        }
+        // observables that the property under check does not talk about never stop a behaviour
+        if let Some(only) = &only {
+            let (keep, other): (Vec<Mismatch>, Vec<Mismatch>) = out.drain(..).partition(|m| only.iter().any(|p| m.kind.starts_with(p.as_str())));
+            out = keep;
+            for m in other {
+                d.log.push(format!("other: step {} {} {}", m.step, m.action, m.kind));
+                OTHER.fetch_add(1, std::sync::atomic::Ordering::SeqCst);
+            }
         }
         if !out.is_empty() {
             break;
@@ -168,7 +180,7 @@ fn main() {
         if failed >= max_fail { break; }
     }
     let _ = std::fs::remove_dir_all(&root);
-    println!("RESULT {}", json!({"lines": n, "executed": executed, "distinct": distinct.len(), "steps": steps_total, "failed": failed, "tool_errors": tool_errors, "sample": sample, "actions": action_counts, "trace_events": trace_events}));
+    println!("RESULT {}", json!({"lines": n, "executed": executed, "distinct": distinct.len(), "steps": steps_total, "failed": failed, "tool_errors": tool_errors, "sample": sample, "actions": action_counts, "trace_events": trace_events, "other_mismatches": OTHER.load(std::sync::atomic::Ordering::SeqCst)}));
     if tool_errors > 0 { std::process::exit(2); }
 }
 
